@@ -310,3 +310,53 @@ func copyCallbacks(p *load.Prog, dc *ssa.Function) []*ssa.Function {
 	}
 	return out
 }
+
+// c07CopyThroughFilter (R07.i): every node DeepCopy returns was made by Filter (the kind registry with the destination
+// document and the tracked family) - no path hands out a node made another way.
+func c07CopyThroughFilter(p *load.Prog, r *oblig.Run) {
+	r.Rule("R07.i", "everything DeepCopy returns was made by Filter with the destination document", 1)
+	dc := p.Func(load.PkgRoot, "DeepCopy")
+	fl := p.Func(load.PkgRoot, "Filter")
+	if dc == nil || fl == nil {
+		r.Add("R07.i", "anchor", "-", "anchor").Unknown("DeepCopy / Filter not found")
+		return
+	}
+	n := 0
+	for _, b := range dc.Blocks {
+		ret, ok := b.Instrs[len(b.Instrs)-1].(*ssa.Return)
+		if !ok || len(ret.Results) != 1 {
+			continue
+		}
+		vals := []ssa.Value{ret.Results[0]}
+		if ph, isPhi := ret.Results[0].(*ssa.Phi); isPhi {
+			vals = ph.Edges
+		}
+		for _, v := range vals {
+			n++
+			k, isK := v.(*ssa.Const)
+			c, isCall := v.(*ssa.Call)
+			isDoc := func(a ssa.Value) bool {
+				if a == ssa.Value(dc.Params[1]) {
+					return true
+				}
+				// the parameter's cell (captured by the callback)
+				if ld, ok := a.(*ssa.UnOp); ok && ld.Op == token.MUL {
+					if al, ok := ld.X.(*ssa.Alloc); ok {
+						for _, ref := range *al.Referrers() {
+							if st, ok := ref.(*ssa.Store); ok && st.Addr == ssa.Value(al) && st.Val == ssa.Value(dc.Params[1]) {
+								return true
+							}
+						}
+					}
+				}
+				return false
+			}
+			good := (isK && k.Value == nil) || (isCall && c.Call.StaticCallee() == fl && len(c.Call.Args) >= 2 && isDoc(c.Call.Args[1]))
+			r.Check("R07.i", fmt.Sprintf("result %d of DeepCopy", n), p.Pos(ret.Pos()), "origin of the returned node", good, "nil or Filter(node, document, ...)",
+				"DeepCopy returns "+v.String()+", a node that was not made by Filter with the destination document: it is built without the document and the family the copy belongs to - a HUSB/WIFE/CHIL leaf cannot be created at all (panic), an INDI or FAM record comes back as a plain node attached to the source document")
+		}
+	}
+	if n == 0 {
+		r.Add("R07.i", "results", p.Pos(dc.Pos()), "results of DeepCopy").Unknown("DeepCopy has no return")
+	}
+}
